@@ -194,6 +194,12 @@
         #[verifier::external_body]
         #[derive(Debug)]
         pub struct PathAndQuery { _p: () }
+        impl PathAndQuery {
+            pub uninterp spec fn view(&self) -> Seq<u8>;
+            #[verifier::external_body]
+            pub fn as_str(&self) -> (r: &str) ensures crate::str_bytes(r) == self.view() { unimplemented!() }
+        }
+        pub struct InvalidUri(pub ());
     }
     impl Uri {
         /// host of the authority, None for a relative URI
@@ -208,6 +214,19 @@
         pub fn host(&self) -> (r: Option<&str>)
             ensures match self.spec_host() { Some(h) => r is Some && crate::str_bytes(r->Some_0) == h, None => r is None }
         { unimplemented!() }
+        #[verifier::external_body]
+        pub fn path_and_query(&self) -> (r: Option<&uri::PathAndQuery>)
+            ensures match self.spec_path_and_query() { Some(p) => r is Some && r->Some_0.view() == p, None => r is None }
+        { unimplemented!() }
+        #[verifier::external_body]
+        pub fn to_string(&self) -> (r: String)
+            ensures crate::utf8_bytes(r@) == self.spec_text()
+        { unimplemented!() }
+    }
+    impl core::str::FromStr for Uri {
+        type Err = uri::InvalidUri;
+        #[verifier::external_body]
+        fn from_str(s: &str) -> (r: Result<Uri, uri::InvalidUri>) { unimplemented!() }
     }
 
     // ---------------------------------------------------------------- Request / Response
@@ -229,6 +248,32 @@
         pub fn headers(&self) -> (r: &HeaderMap) ensures *r == self.spec_headers() { unimplemented!() }
         #[verifier::external_body]
         pub fn uri(&self) -> (r: &Uri) ensures *r == self.spec_uri() { unimplemented!() }
+        /// two requests with the same head (everything but the body)
+        pub open spec fn same_head<C>(&self, other: &Request<C>) -> bool {
+            self.spec_method() == other.spec_method() && self.spec_version() == other.spec_version()
+                && self.spec_headers() == other.spec_headers() && self.spec_uri() == other.spec_uri()
+        }
+        /// Request::new: GET, "/", HTTP/1.1, no headers
+        #[verifier::external_body]
+        pub fn new(body: B) -> (r: Request<B>)
+            ensures r.spec_body() == body, r.spec_method() == Method::GET, r.spec_version() == Version::HTTP_11, r.spec_headers().entries().len() == 0
+        { unimplemented!() }
+        #[verifier::external_body]
+        pub fn into_parts(self) -> (r: (request::Parts, B))
+            ensures r.1 == self.spec_body(), r.0.method == self.spec_method(), r.0.version == self.spec_version(),
+                r.0.headers == self.spec_headers(), r.0.uri == self.spec_uri()
+        { unimplemented!() }
+        #[verifier::external_body]
+        pub fn from_parts(parts: request::Parts, body: B) -> (r: Request<B>)
+            ensures r.spec_body() == body, r.spec_method() == parts.method, r.spec_version() == parts.version,
+                r.spec_headers() == parts.headers, r.spec_uri() == parts.uri
+        { unimplemented!() }
+        #[verifier::external_body]
+        pub fn method_mut(&mut self) -> (r: &mut Method)
+            ensures *r == old(self).spec_method(), *final(r) == final(self).spec_method(),
+                final(self).spec_version() == old(self).spec_version(), final(self).spec_headers() == old(self).spec_headers(),
+                final(self).spec_uri() == old(self).spec_uri(), final(self).spec_body() == old(self).spec_body()
+        { unimplemented!() }
     }
 
     #[verifier::external_body]
@@ -254,13 +299,13 @@
     impl Response<()> {
         #[verifier::external_body]
         pub fn builder() -> (r: response::Builder)
-            ensures r.state() == Ok::<response::Parts, ()>(response::Parts { version: Version::HTTP_11, status: StatusCode(200), headers: Seq::<Hdr>::empty() })
+            ensures r.state() == Ok::<response::BParts, ()>(response::BParts { version: Version::HTTP_11, status: StatusCode(200), headers: Seq::<Hdr>::empty() })
         { unimplemented!() }
     }
     impl Request<()> {
         #[verifier::external_body]
         pub fn builder() -> (r: request::Builder)
-            ensures r.state() == Ok::<request::Parts, ()>(request::Parts { version: Version::HTTP_11, method: Method::GET, headers: Seq::<Hdr>::empty() })
+            ensures r.state() == Ok::<request::BParts, ()>(request::BParts { version: Version::HTTP_11, method: Method::GET, headers: Seq::<Hdr>::empty() })
         { unimplemented!() }
     }
     /// http::Error (opaque)
@@ -271,26 +316,26 @@
     pub mod response {
         use vstd::prelude::*;
         use super::*;
-        pub struct Parts { pub version: Version, pub status: StatusCode, pub headers: Seq<Hdr> }
+        pub struct BParts { pub version: Version, pub status: StatusCode, pub headers: Seq<Hdr> }
         /// http::response::Builder: either the parts collected so far or a recorded error
         #[verifier::external_body]
         pub struct Builder { _p: () }
         impl Builder {
-            pub uninterp spec fn state(&self) -> Result<Parts, ()>;
+            pub uninterp spec fn state(&self) -> Result<BParts, ()>;
             #[verifier::external_body]
             pub fn version(self, version: Version) -> (r: Builder)
-                ensures r.state() == match self.state() { Ok(p) => Ok::<Parts, ()>(Parts { version, ..p }), Err(e) => Err(e) }
+                ensures r.state() == match self.state() { Ok(p) => Ok::<BParts, ()>(BParts { version, ..p }), Err(e) => Err(e) }
             { unimplemented!() }
             #[verifier::external_body]
             pub fn status(self, status: StatusCode) -> (r: Builder)
-                ensures r.state() == match self.state() { Ok(p) => Ok::<Parts, ()>(Parts { status, ..p }), Err(e) => Err(e) }
+                ensures r.state() == match self.state() { Ok(p) => Ok::<BParts, ()>(BParts { status, ..p }), Err(e) => Err(e) }
             { unimplemented!() }
             /// appends the field; records an error (never panics) on an invalid name or value
             #[verifier::external_body]
             pub fn header(self, name: &str, value: &[u8]) -> (r: Builder)
                 ensures r.state() == match self.state() {
                     Ok(p) => if valid_name(crate::str_bytes(name)) && valid_value(value@) {
-                            Ok::<Parts, ()>(Parts { headers: p.headers.push(Hdr { name: lower(crate::str_bytes(name)), value: value@ }), ..p })
+                            Ok::<BParts, ()>(BParts { headers: p.headers.push(Hdr { name: lower(crate::str_bytes(name)), value: value@ }), ..p })
                         } else { Err(()) },
                     Err(e) => Err(e) }
             { unimplemented!() }
@@ -305,24 +350,26 @@
     pub mod request {
         use vstd::prelude::*;
         use super::*;
-        pub struct Parts { pub version: Version, pub method: Method, pub headers: Seq<Hdr> }
+        /// http::request::Parts (public fields, as in http)
+        pub struct Parts { pub method: Method, pub uri: Uri, pub version: Version, pub headers: HeaderMap }
+        pub struct BParts { pub version: Version, pub method: Method, pub headers: Seq<Hdr> }
         #[verifier::external_body]
         pub struct Builder { _p: () }
         impl Builder {
-            pub uninterp spec fn state(&self) -> Result<Parts, ()>;
+            pub uninterp spec fn state(&self) -> Result<BParts, ()>;
             #[verifier::external_body]
             pub fn version(self, version: Version) -> (r: Builder)
-                ensures r.state() == match self.state() { Ok(p) => Ok::<Parts, ()>(Parts { version, ..p }), Err(e) => Err(e) }
+                ensures r.state() == match self.state() { Ok(p) => Ok::<BParts, ()>(BParts { version, ..p }), Err(e) => Err(e) }
             { unimplemented!() }
             #[verifier::external_body]
             pub fn method(self, method: Method) -> (r: Builder)
-                ensures r.state() == match self.state() { Ok(p) => Ok::<Parts, ()>(Parts { method, ..p }), Err(e) => Err(e) }
+                ensures r.state() == match self.state() { Ok(p) => Ok::<BParts, ()>(BParts { method, ..p }), Err(e) => Err(e) }
             { unimplemented!() }
             #[verifier::external_body]
             pub fn header(self, name: &str, value: &[u8]) -> (r: Builder)
                 ensures r.state() == match self.state() {
                     Ok(p) => if valid_name(crate::str_bytes(name)) && valid_value(value@) {
-                            Ok::<Parts, ()>(Parts { headers: p.headers.push(Hdr { name: lower(crate::str_bytes(name)), value: value@ }), ..p })
+                            Ok::<BParts, ()>(BParts { headers: p.headers.push(Hdr { name: lower(crate::str_bytes(name)), value: value@ }), ..p })
                         } else { Err(()) },
                     Err(e) => Err(e) }
             { unimplemented!() }
